@@ -140,6 +140,9 @@ struct Engine {
 	virtual Json execute(const Json & plan, bool verbose) = 0;
 	// runs in the worker: null => property held on this run; else {clause, detail, op?}
 	virtual Json judge(const Json & plan, const ChildOutcome & out, Ctx & ctx) = 0;
+	// watchdog in executed basic-block edges of the library (variants A/B) when the plan names none: far above any
+	// legitimate run, so that an input-level endless loop ends deterministically as "stepcap" instead of a wall-clock timeout
+	virtual uint64_t default_step_cap() const { return 1500000000ULL; }
 	// worker-side step before a plan is executed: may add derived data (e.g. a step cap computed from reference runs)
 	virtual void prepare(Json & plan, Ctx & ctx) { (void)plan; (void)ctx; }
 	// plan that performs operation k "first in a fresh process" (attribution of crashes, references)
